@@ -754,7 +754,9 @@ def make_family(name, rng, tgen, t0, span, layout="tensor", big=False):
             f.fcn = lambda t, y: torch.stack([y[1], -w * w * y[0] - 2 * g * y[1]])
             f.exact = lambda t: torch.stack(list(exact_xv(t))).reshape(-1)
     elif name == "tuplelinear":
-        shapes = rng.choice([[(2,), (3,)], [(1,), (2, 2)], [(), (3,), (2,)], [(2, 1), (1, 2), (1,)], [(3,)], [(2,), (2,)]])
+        # incl. components of EQUAL element count but different shapes (a matrix next to a vector of the same size)
+        shapes = rng.choice([[(2,), (3,)], [(1,), (2, 2)], [(), (3,), (2,)], [(2, 1), (1, 2), (1,)], [(3,)], [(2,), (2,)],
+                             [(2, 2), (4,)], [(4,), (2, 2)], [(1, 2), (2, 1)], [(2, 3), (6,), (3, 2)]])
         sizes = [int(torch.Size(sh).numel()) for sh in shapes]
         n = sum(sizes)
         A = rndn(n, n)
